@@ -152,6 +152,10 @@ def main(pid, extra_units=None, extra_bounds=None, extra_uncovered=None, post=No
     us, st = units_for(pid, quick)
     if extra_units:
         us += extra_units(quick)
+    if pid == 'C20':
+        # the main-level units below evaluate formula sketches through the operation contracts: discharge them here too
+        have = {repr(u) for u in us}
+        us += [u for u in units_for('C02', quick)[0] if repr(u) not in have]
     xj = []
     if pid == 'C02':
         xj.append(('<BDD as PartialEq>::eq on canonical diagrams k=3', bddcore.unit_bdd_eq, (3 if quick else 4, {})))
@@ -173,6 +177,10 @@ def main(pid, extra_units=None, extra_bounds=None, extra_uncovered=None, post=No
         # the same diagram retained twice in one environment with two independent filters (state threaded through)
         xj.append(('history retain ; retain k=2', unit_pair, ('retain', 'retain', 2, {})))
         xj.append(('history retain ; retain k=3', unit_pair, ('retain', 'retain', 3, {})))
+        # the CLI clause: `rsbdd -c t|f -t` through the real main (option plumbing, evaluation, printing)
+        import maincore
+        xj += maincore.jobs_retain(quick)
+        xj.append(('<BDD as PartialEq>::eq on canonical diagrams k=3', bddcore.unit_bdd_eq, (3, {})))
     if pid == 'C03':
         pass
     rep = run_property(pid, us, VALIDATE_OPS[pid], st, extra_jobs=xj,
